@@ -62,7 +62,7 @@ Proof. exact varint_prefix_free. Qed.
 Print Assumptions C19_varint_prefix_free.
 
 Theorem C19_varstr_roundtrip : forall b rest,
-  zlen b < 18446744073709551616 ->
+  zlen b < 9223372036854775808 ->
   exists e, encode_varstr b = Ok e /\ read_varstr (e ++ rest) = Ok (b, rest).
 Proof. exact varstr_roundtrip. Qed.
 Print Assumptions C19_varstr_roundtrip.
@@ -138,7 +138,7 @@ Proof. exact ping_roundtrip. Qed.
 Print Assumptions C19_ping_pong_roundtrip.
 
 Theorem C19_cfilter_roundtrip : forall t bh fb items rest,
-  length bh = 32%nat -> zlen fb < 18446744073709551616 -> decode_gcs fb = Ok items ->
+  length bh = 32%nat -> zlen fb < 9223372036854775808 -> decode_gcs fb = Ok items ->
   exists b, cfilter_layout t bh fb = Ok b /\
             cfilter_parse (b ++ rest) = Ok (t, bh, fb, items, rest).
 Proof. exact cfilter_roundtrip. Qed.
